@@ -22,9 +22,7 @@ def run(ctx, only=None):
     allex = True
     for r in types:
         ctx.evaluations += r['pairs'] + r['triples']
-        for i in range(min(r['pairs'] - r['carrier'], 100000)):
-            pass
-        ctx.nontrivial.update(range(len(ctx.nontrivial), len(ctx.nontrivial) + max(0, r['pairs'] - r['carrier'])))
+        ctx.nontrivial_counted += r['pairs_with_distinct_elements']
         allex = allex and r['exhaustive_triples']
     ctx.cov['types'] = len(types)
     ctx.cov['pairs'] = sum(r['pairs'] for r in types)
